@@ -260,9 +260,26 @@ def _short(x):
 # Building the collection through the public API
 # ---------------------------------------------------------------------------
 
+LAYOUT = "contig"      # how _arr hands arrays to the API: contig | strided | reversed
+
+
+def _lay(a):
+    """The same values as a non-contiguous view (every 2nd element of a larger buffer / negative
+    stride); the API must give the result it gives for the contiguous copy."""
+    import numpy as np
+    if LAYOUT == "strided":
+        big = np.zeros(2 * len(a) + 1, dtype=a.dtype)
+        big[1::2] = a
+        big[0::2] = a[:1] if len(a) else 0
+        return big[1::2]
+    if LAYOUT == "reversed":
+        return a[::-1].copy()[::-1]
+    return a
+
+
 def _arr(hexs, dt):
     import numpy as np
-    return np.frombuffer(bytes.fromhex(hexs), dtype=dt).copy()
+    return _lay(np.frombuffer(bytes.fromhex(hexs), dtype=dt).copy())
 
 
 def dict_from_desc(d, offset64=False):
@@ -281,7 +298,7 @@ def dict_from_desc(d, offset64=False):
             td[col] = _arr(t["cols"][col], dt)
         for col, dt in ragged:
             td[col] = _arr(t["ragged"][col][0], dt)
-            td[col + "_offset"] = np.array(t["ragged"][col][1], dtype=np.uint64 if offset64 else np.uint32)
+            td[col + "_offset"] = _lay(np.array(t["ragged"][col][1], dtype=np.uint64 if offset64 else np.uint32))
         if has_schema:
             td["metadata_schema"] = t["metadata_schema"]
         out[name] = td
@@ -297,6 +314,13 @@ def dict_from_desc(d, offset64=False):
 
 
 def build_tc(d, how="fromdict"):
+    global LAYOUT
+    if "_" in how:          # fromdict_strided, fromdict_reversed, setcols_strided, ...
+        base, LAYOUT = how.split("_")
+        try:
+            return build_tc(d, base)
+        finally:
+            LAYOUT = "contig"
     import tskit
     if how in ("fromdict", "fromdict64"):
         return tskit.TableCollection.fromdict(dict_from_desc(d, offset64=(how == "fromdict64")))
@@ -314,7 +338,7 @@ def build_tc(d, how="fromdict"):
             kw[col] = _arr(t["cols"][col], dt)
         for col, dt in ragged:
             kw[col] = _arr(t["ragged"][col][0], dt)
-            kw[col + "_offset"] = np.array(t["ragged"][col][1], dtype=np.uint64)
+            kw[col + "_offset"] = _lay(np.array(t["ragged"][col][1], dtype=np.uint64))
         table = getattr(tc, name)
         table.set_columns(**kw)
         if has_schema:
@@ -560,7 +584,8 @@ class Roundtrip(Family):
         for i in range(n_any):
             k = rng.choice([1, 1, 1, 2, 3])
             descs = [gen_desc(rng, maxrows=rng.choice([1, 2, 4, 6]), tiny=rng.random() < 0.2) for _ in range(k)]
-            yield {"descs": descs, "build": rng.choice(["fromdict", "fromdict64", "setcols"]),
+            yield {"descs": descs, "build": rng.choice(["fromdict", "fromdict64", "setcols", "fromdict_strided",
+                                                         "fromdict_reversed", "setcols_strided", "setcols_reversed"]),
                    "buffered": rng.random() < 0.5, "valid": False}
         for i in range(n_valid):
             k = rng.choice([1, 1, 2])
@@ -614,6 +639,57 @@ class Roundtrip(Family):
                 rec("pickle%d" % proto, lambda: pickle.loads(pickle.dumps(tc0, protocol=proto)))
             rec("copy", lambda: tc0.copy())
             rec("deepcopy", lambda: canon_dict(copy.deepcopy(tc0).asdict()))
+
+            # error then reuse: a failing fromdict / load INTO an existing low-level object, followed by
+            # the valid call on the same object, must give what a fresh object gives
+            def reuse(bad_kind):
+                import _tskit
+                good = tc0.asdict()
+                bad = dict(good)
+                if bad_kind == "offset":
+                    t = dict(good["mutations"])
+                    o = t["metadata_offset"].astype("uint64").copy()
+                    o[0] = 1                                  # offsets must start at 0: rejected late
+                    t["metadata_offset"] = o
+                    bad["mutations"] = t
+                elif bad_kind == "missing":
+                    del bad["provenances"]
+                elif bad_kind == "length":
+                    t = dict(good["provenances"])
+                    t["record_offset"] = t["record_offset"][:-1] if len(t["record_offset"]) > 1 else t["record_offset"].astype("int8").view("int8")[:0]
+                    bad["provenances"] = t
+                # (fromdict into an object that already holds other data keeps that object's optional
+                # fields when the dict omits them - "leave the default" - so the object is fresh here, as in
+                # TableCollection.fromdict / __setstate__)
+                ll = _tskit.TableCollection(1.0)
+                try:
+                    ll.fromdict(bad)
+                    return [["reuse", "the malformed dict was accepted", bad_kind]]
+                except Exception:
+                    pass
+                ll.fromdict(good)
+                return canon_dict(ll.asdict())
+            tc_other = tcs[-1] if len(tcs) > 1 else build_tc(case["descs"][0], "fromdict")
+            for kind in ("offset", "missing", "length"):
+                rec("reuse-fromdict-" + kind, lambda kind=kind: reuse(kind))
+
+            def reuse_load():
+                import _tskit
+                ll = _tskit.TableCollection(1.0)
+                ll.fromdict(tc_other.asdict())
+                bad = os.path.join(tmp, "bad.trees")
+                with open(bad, "wb") as f:
+                    f.write(fb[:len(fb) - 9])
+                with open(bad, "rb") as f:
+                    try:
+                        ll.load(f)
+                        return [["reuse", "truncated file accepted", ""]]
+                    except Exception:
+                        pass
+                with open(p, "rb") as f:
+                    ll.load(f)
+                return canon_dict(ll.asdict())
+            rec("reuse-load", reuse_load)
 
             def skip_tables():
                 got = canon_dict(tskit.TableCollection.load(p, skip_tables=True).asdict())
